@@ -457,9 +457,14 @@ theorem beforeAndHandler_ok (pg : Pages) (rq : Req) (p : Plan) (cache : Option C
   · split
     · exact ⟨CacheOk_none, hres⟩
     · split
-      · rename_i ent hfind
-        exact ⟨hc, fun _ => hit_CLok _ ent (find_ok hc hfind)⟩
       · exact ⟨hc, hres⟩
+      · split
+        · rename_i ent hfind
+          split
+          · exact ⟨hc, by simp⟩
+          · exact ⟨hc, fun _ => hit_CLok _ ent (find_ok hc hfind)⟩
+          · exact ⟨hc, hres⟩
+        · exact ⟨hc, hres⟩
   · exact ⟨hc, hres⟩
 
 theorem firstPass_ok (pg : Pages) (rq : Req) (p : Plan) (cache : Option Cache)
